@@ -125,7 +125,7 @@ class Event(object):
         self.callbacks.remove(cb)
 
     def got_update(self, data):
-        for cb in self.callbacks:
+        for cb in list(self.callbacks):
             try:
                 cb(data)
             except Exception as e:
